@@ -328,7 +328,8 @@ package wal
 // appended and as synced, so that the next append is accepted at res+1.
 //
 //@ func wal.TruncateLog(t, lastSafeOffset) (res, err)
-//@ property C09
+//@ property C09 C03
+//@ noreentrantlock
 //@ requires walInv(t) && lastSafeOffset >= -1
 //@ loop 0 modifies fields(readOnlySegmentsGroup), fields(readOnlySegment), fields(readWriteSegment), ghset(keys, as(t.readOnlySegments, *readOnlySegmentsGroup).allSegments), ghset(keys, as(t.readOnlySegments, *readOnlySegmentsGroup).openSegments)
 //@ loop 0 invariant t.readOnlySegments == old(t.readOnlySegments) && as(t.readOnlySegments, *readOnlySegmentsGroup).allSegments == old(as(t.readOnlySegments, *readOnlySegmentsGroup).allSegments) && as(t.readOnlySegments, *readOnlySegmentsGroup).openSegments == old(as(t.readOnlySegments, *readOnlySegmentsGroup).openSegments)
